@@ -78,8 +78,9 @@ def judge(case) -> Verdict:
 @st.composite
 def pair_st(draw, tier):
     platform = draw(st.sampled_from(["ios", "nxos"]))
-    top = draw(G.ace_st(platform, kmax=4, groups=True, members=True, empty_sets=True, seq=False, noise=False))
-    bottom = draw(G.mutate_ace(top, platform, kmax=4, groups=True, empty_sets=True))
+    kmax = draw(st.sampled_from([4, 4, 4, 4, 4, 7]))
+    top = draw(G.ace_st(platform, kmax=kmax, groups=True, members=True, empty_sets=True, seq=False, noise=False))
+    bottom = draw(G.mutate_ace(top, platform, kmax=kmax, groups=True, empty_sets=True))
     if draw(st.integers(0, 9)) == 0:
         top, bottom = bottom, top
     # usual Cisco order 'log <other options>': the log keyword in front of the flag tokens
